@@ -1,6 +1,6 @@
 (* C07 - a program that passes checking never fails or misbehaves at run time.
    Expression level: type soundness of the checker with respect to the evaluator. *)
-From HclV Require Import Base Expr ExprSpec ExprLemmas ExprProofs.
+From HclV Require Import Base Expr ExprSpec ExprLemmas ExprProofs Machine MachineSpec SchedSpec SchedProofs.
 Open Scope N_scope.
 
 (* an accepted expression never raises a width or undeclared-wire error: it yields a value of
@@ -29,3 +29,41 @@ Theorem C07_stored_value_fits :
     bits (as_width dw v) = bits v mod 2 ^ nbits dw /\ wd (as_width dw v) = dw.
 Proof. exact assign_truncates. Qed.
 Print Assumptions C07_stored_value_fits.
+
+(* ---- machine level: a well-typed compiled program never fails -------------------------------- *)
+(* program_ok: every action is typed by the width environment G (assignments by the checker),
+   the schedule is valid, the banks are well formed; state_ok: every start wire has a value,
+   every value has exactly its declared width and fits, 16 registers below 2^64, memory well
+   formed.  (BuildProofs.v shows that accepted programs satisfy program_ok.) *)
+
+(* one cycle: a well-typed state again, or the explicit division-by-zero report - never a panic
+   (no failing unwrap, assert or slice), a width error or an undeclared wire; in particular every
+   wire holds a value that fits its declared width in every cycle; the debug table (-d) and the
+   option-guarded output never fail either *)
+Theorem C07_step_safe :
+  forall f o G p s,
+    program_ok f G p -> state_ok G p s ->
+    match step f o p s with
+    | Ok (s', _) => state_ok G p s'
+    | Err es => div_zero_only es
+    end.
+Proof. exact step_safe_ok. Qed.
+Print Assumptions C07_step_safe.
+
+Theorem C07_initial_state :
+  forall f G p, program_ok f G p -> exists s, initial_state p = Ok s /\ state_ok G p s.
+Proof. exact initial_state_safe_ok. Qed.
+Print Assumptions C07_initial_state.
+
+(* any number of cycles from any well-typed state - hence on any memory image, which only has to
+   satisfy the memory invariant - including the state dumps printed between cycles *)
+Theorem C07_run_safe :
+  forall fuel f o G p s,
+    program_ok f G p -> state_ok G p s ->
+    (N.to_nat (o_timeout o - cycle s) <= fuel)%nat ->
+    match run fuel f o p s with
+    | Ok (s', _) => state_ok G p s'
+    | Err es => div_zero_only es
+    end.
+Proof. exact run_safe_ok. Qed.
+Print Assumptions C07_run_safe.
